@@ -78,7 +78,7 @@ def interop_jws():
 def plan(tier):
     q = tier == "quick"
     T = 300 if q else 1500
-    p3, n3 = gen.specialise("c03_roundtrip.py", [("roundtrip", [(a,) for a in range(15)]), ("roundtrip_b64", [(a,) for a in ((0, 4, 9, 13) if q else range(15))])], "c07_gen3.py")
+    p3, n3 = gen.specialise("c03_roundtrip.py", [("roundtrip_layout", [(a,) for a in range(15)]), ("roundtrip_keys", [(a,) for a in range(15)]), ("roundtrip_b64", [(a,) for a in ((0, 4, 9, 13) if q else range(15))])], "c07_gen3.py")
     conds = [Cond(p3, n, "main", T, "producer: signing input = ASCII(b64(header).b64(payload)) / raw payload for b64=false; key octets; RFC parameter table (%s)" % n) for n in n3]
     conds += [Cond("c01_jws.py", "compact_asym", "main", T * 2, "consumer: RSA/PSS/ECDSA/EdDSA parameter objects equal the RFC 7518/8037/8812 table; fixed-length R||S"),
               Cond("c01_jws.py", "compact_alg_allow", "main", T, "consumer: the signing input is the RECEIVED header segment (any JSON spelling) '.' received payload segment"),
